@@ -6,6 +6,7 @@ import (
 	"time"
 
 	tchannel "github.com/uber/tchannel-go"
+	"github.com/uber/tchannel-go/simrt"
 	"vsim/wire"
 )
 
@@ -273,6 +274,9 @@ func (w *World) timelineHealth() {
 	// script: which pings get an answer
 	n := 4 + scn(20)
 	script := make([]bool, n)
+	// how a ping fails: 0 = never answered, 1 = answered after the timeout (the late pong then
+	// finds no exchange), 2 = answered with an error frame
+	failHow := make([]int, n)
 	for i := range script {
 		script[i] = scnChance(1, 2)
 		if scnChance(1, 5) { // runs of failures
@@ -281,7 +285,12 @@ func (w *World) timelineHealth() {
 			}
 		}
 	}
-	w.describe("health interval=%v timeout=%v failuresToClose=%d script=%v", interval, timeout, failures, script)
+	for i := range failHow {
+		failHow[i] = scnPick(0, 0, 1, 2)
+	}
+	late := timeout + (interval-timeout)/2
+	errCode := []byte{wire.ErrBusy, wire.ErrUnexpected, 0x06, 0x07}[scn(4)]
+	w.describe("health interval=%v timeout=%v failuresToClose=%d script=%v failHow=%v (late pong after %v, error code %#x)", interval, timeout, failures, script, failHow, late, errCode)
 	rs := w.newRawPeer("rawsrv", "10.0.8.1")
 	pings := 0
 	sockEnded := false
@@ -303,7 +312,20 @@ func (w *World) timelineHealth() {
 				} else if k >= len(script) {
 					c.Send(wire.EncPing(wire.TPingRes, f.ID)) // after the script: healthy
 				} else {
-					w.Net.Fired["peer.silent"]++
+					switch failHow[k] {
+					case 1:
+						id := f.ID
+						w.Net.Fired["peer.late"]++
+						simrt.Go("h/late-pong", func() {
+							sleep(late)
+							c.Send(wire.EncPing(wire.TPingRes, id))
+						})
+					case 2:
+						w.Net.Fired["peer.error-for-ping"]++
+						c.Send(wire.EncError(f.ID, errCode, wire.Span{}, "no pong for you"))
+					default:
+						w.Net.Fired["peer.silent"]++
+					}
 				}
 			}
 		}
